@@ -224,9 +224,9 @@ func (p *parser) parseIndexOrSliceExpr(left Node, allowSlice bool) Node {
 		return nil
 	}
 	p.advanceWSS() // advance past ]
-	t := left.Type().Sub
-	if leftType == STRING {
-		t = STRING_TYPE
+	t := STRING_TYPE
+	if leftType != STRING {
+		t = elementType(left.Type())
 	}
 	return &IndexExpression{token: tok, Left: left, Index: index, T: t}
 }
@@ -273,7 +273,7 @@ func (p *parser) parseSlice(tok *lexer.Token, left, start Node) Node {
 		return nil
 	}
 
-	return &SliceExpression{token: tok, Left: left, Start: start, End: end, T: left.Type()}
+	return &SliceExpression{token: tok, Left: left, Start: start, End: end, T: fixedType(left.Type())}
 }
 
 func (p *parser) parseDotExpr(left Node) Node {
@@ -297,7 +297,7 @@ func (p *parser) parseDotExpr(left Node) Node {
 		p.appendErrorForToken(`expected map key, found `+p.cur.TokenType().String(), tok)
 		return nil
 	}
-	expr := &DotExpression{token: tok, Left: left, T: left.Type().Sub, Key: key.Literal}
+	expr := &DotExpression{token: tok, Left: left, T: elementType(left.Type()), Key: key.Literal}
 	p.advance() // advance past key IDENT
 	return expr
 }
@@ -333,7 +333,7 @@ func (p *parser) parseTypeAssertion(left Node) Node {
 	if t == nil {
 		return nil // previous error: a node without a type must not be used further
 	}
-	return &TypeAssertion{T: t, token: tok, Left: left}
+	return &TypeAssertion{T: fixedType(t), token: tok, Left: left}
 }
 
 func isBinaryOp(tt lexer.TokenType) bool {
